@@ -193,7 +193,10 @@ class Gen:
                 if s[0] == "none":
                     axes.append(None)
                 else:
-                    axes.append(0 if rng.random() < 0.7 else None)
+                    if s[0] == "a" and len(s[1]) >= 1 and rng.random() < 0.3:
+                        axes.append(1)  # map along a non-leading axis of an array argument
+                    else:
+                        axes.append(0 if rng.random() < 0.7 else None)
             mappable = [i for i, s in enumerate(inner.arg_specs) if s[0] != "none"]
             if all(a is None for a in axes):
                 axes[mappable[int(rng.integers(len(mappable)))]] = 0
